@@ -91,10 +91,22 @@ def _on_alarm(signum, frame):
     raise _Alarm()
 
 
+NUMPY_SIZES = [0]
+
+
+def worker_obs():
+    return {"decodes_with_numpy_integer_chunk_sizes": NUMPY_SIZES[0]}
+
+
 def _decode_guarded(enc, buf, size, limit):
     from neuroglancer_scripts.chunk_encoding import InvalidFormatError
     signal.signal(signal.SIGALRM, _on_alarm)
     signal.alarm(limit)
+    if len(buf) % 3 == 0:
+        # the chunk size as a tuple of narrow NumPy integers (e.g. taken from a header array)
+        import numpy as np
+        size = tuple((np.uint8 if v < 256 else np.int16)(v) for v in size)
+        NUMPY_SIZES[0] += 1
     try:
         try:
             return ("ok", enc.decode(buf, size))
